@@ -1,5 +1,7 @@
 import Proofs.StdNoPanicLemmas
 import Liquid.Filters.Arr
+import Proofs.InsertionSort
+import Proofs.CompareLemmas
 /-!
 # The bodies of `Filters/Arr.lean` never panic on converted arguments
 
@@ -86,19 +88,37 @@ theorem mapF_noPanic (k : Bytes) : ∀ xs : List GoVal, NoPanicRes (mapF k xs)
 theorem uniq_noPanic (xs : List GoVal) : NoPanicRes (uniq [.slice .any xs]) := by
   rw [uniq]; split <;> trivial
 
+theorem noPanicRes_of_isPanic {ε α} {x : Res ε α} (h : x.isPanic = false) : NoPanicRes x := by
+  cases x <;> simp_all [NoPanicRes, Res.isPanic]
+
+theorem isPanic_of_noPanicRes {ε α} {x : Res ε α} (h : NoPanicRes x) : x.isPanic = false := by
+  cases x <;> simp_all [NoPanicRes, Res.isPanic]
+
+theorem lessByKeyM_isPanic (key : Bytes) (a b : GoVal) : (lessByKeyM key a b).isPanic = false := by
+  unfold lessByKeyM
+  split <;> first | rfl | exact Cmp.less_noPanic _ _
+
+theorem sortM_noPanic (xs : List GoVal) : NoPanicRes (sortM xs) := by
+  unfold sortM
+  split
+  · exact noPanicRes_of_isPanic (insertionSortM_isPanic Cmp.less_noPanic xs)
+  · split <;> trivial
+
+theorem sortByM_noPanic (key : Bytes) (xs : List GoVal) : NoPanicRes (sortByM key xs) := by
+  unfold sortByM
+  split
+  · exact noPanicRes_of_isPanic (insertionSortM_isPanic (lessByKeyM_isPanic key) xs)
+  · split <;> trivial
+
 theorem sortWith_noPanic (strict : Bool) (xs : List GoVal) (key : GoVal) :
     NoPanicRes (sortWith strict [.slice .any xs, key]) := by
   unfold sortWith
   split
-  · simp only []
-    split
-    · trivial
-    · split <;> trivial
+  · refine NoPanicRes.bind (sortM_noPanic _) (fun ys => ?_)
+    split <;> trivial
   · refine NoPanicRes.bind (sprint_noPanic _) (fun k => ?_)
-    simp only []
-    split
-    · trivial
-    · split <;> trivial
+    refine NoPanicRes.bind (sortByM_noPanic k _) (fun ys => ?_)
+    split <;> trivial
   · next _ h => exact (h _ _ rfl).elim
 
 theorem caseRes_noPanic (o : Option Bytes) : NoPanicRes (caseRes o) := by
@@ -123,15 +143,24 @@ theorem decorate_noPanic {f : GoVal → R Bytes} (hf : ∀ v, NoPanicRes (f v)) 
     rw [decorate]
     exact NoPanicRes.bind (hf x) (fun _ => NoPanicRes.bind (decorate_noPanic hf xs) (fun _ => trivial))
 
+theorem natLessM_isPanic {f : GoVal → R Bytes} (hf : ∀ v, NoPanicRes (f v)) (a b : GoVal) :
+    (natLessM f a b).isPanic = false :=
+  isPanic_of_noPanicRes (NoPanicRes.bind (hf a) (fun _ => NoPanicRes.bind (hf b) (fun _ => trivial)))
+
+theorem sortNatM_noPanic (strict : Bool) {f : GoVal → R Bytes} (hf : ∀ v, NoPanicRes (f v)) (xs : List GoVal) :
+    NoPanicRes (sortNatM strict f xs) := by
+  unfold sortNatM
+  split
+  · exact noPanicRes_of_isPanic (insertionSortM_isPanic (natLessM_isPanic hf) xs)
+  · refine NoPanicRes.bind (decorate_noPanic hf xs) (fun ds => ?_)
+    simp only []
+    split <;> trivial
+
 theorem sortNaturalWith_noPanic (strict : Bool) (xs : List GoVal) (key : GoVal) :
     NoPanicRes (sortNaturalWith strict [.slice .any xs, key]) := by
   have tail : ∀ f : GoVal → R Bytes, (∀ v, NoPanicRes (f v)) →
-      NoPanicRes ((decorate f xs).bind fun ds =>
-        if (strict && !(decide ((sortTexts ds).length ≤ 12) || !tiesVisibleT (sortTexts ds))) = true then tieOrder
-        else Res.ok (GoVal.slice Ty.any (List.map (fun x => x.snd) (sortTexts ds)))) := by
-    intro f hf
-    refine NoPanicRes.bind (decorate_noPanic hf xs) (fun ds => ?_)
-    split <;> trivial
+      NoPanicRes ((sortNatM strict f xs).bind fun ys => Res.ok (GoVal.slice Ty.any ys)) :=
+    fun f hf => NoPanicRes.bind (sortNatM_noPanic strict hf xs) (fun _ => trivial)
   cases key with
   | nil => simp only [sortNaturalWith, Res.bind]; exact tail _ natKey_noPanic
   | _ =>
